@@ -254,8 +254,8 @@ CONSUMER_RES = [(1, 1, 1), (100, 100, 800), (3200, 50, 50), (1, 4, 2),
 
 
 def consumer_cases(tier):
-    sizes = (1, 3, 8, 30) if tier == "quick" else (1, 2, 3, 5, 8, 17, 30, 40)
-    targets = (2, 4) if tier == "quick" else (1, 2, 4, 8)
+    sizes = (1, 3, 8, 30) if tier == "quick" else (1, 2, 3, 5, 8, 17, 30)
+    targets = (2, 4) if tier == "quick" else (2, 4, 8)
     return [(size, res, t) for size in itertools.product(sizes, repeat=3)
             for res in CONSUMER_RES for t in targets]
 
